@@ -1,5 +1,6 @@
 from core import Unit as U
 HASH = ["secp256k1_sha256_write", "secp256k1_sha256_finalize"]
+XQ = ["secp256k1_ge_set_xquad"]
 ADAPT_FN = ["secp256k1_musig_adapt", "secp256k1_musig_extract_adaptor", "secp256k1_scalar_set_b32", "secp256k1_scalar_get_b32",
             "secp256k1_scalar_add", "secp256k1_scalar_negate"]
 UNITS = [
@@ -7,6 +8,31 @@ UNITS = [
       note="pure scalar arithmetic, no oracle: value-level contract of musig_adapt for all 2^512 (s,t), both parities, NULL/alias combinations"),
     U("C12.extract", ["C12"], "harness/C12/adapt.c", "h_extract", functions=ADAPT_FN, timeout=300, min_obl=100, replay=False, unwind=34, solver="cadical",
       note="pure scalar arithmetic, no oracle: value-level contract of musig_extract_adaptor for all inputs"),
+    U("C12.tweak", ["C12"], "harness/C12/tweak.c", "h_tweak", replace=["secp256k1_ecmult", "secp256k1_ge_set_gej"], assumed=["secp256k1_ecmult", "secp256k1_ge_set_gej"],
+      functions=["secp256k1_musig_pubkey_tweak_add_internal", "secp256k1_musig_pubkey_ec_tweak_add", "secp256k1_musig_pubkey_xonly_tweak_add", "secp256k1_keyagg_cache_load",
+                 "secp256k1_keyagg_cache_save", "secp256k1_eckey_pubkey_tweak_add", "secp256k1_extrakeys_ge_even_y", "secp256k1_scalar_add", "secp256k1_scalar_negate"],
+      timeout=600, min_obl=300, unwind=66, replay=False, solver="cadical",
+      note="BIP-327 ApplyTweak bookkeeping for every cache content, tweak, plain/x-only"),
+    U("C12.pubnonce_parse", ["C12", "C07"], "harness/C12/codecs.c", "h_pubnonce_parse", replace=XQ, assumed=XQ,
+      functions=["secp256k1_musig_pubnonce_parse", "secp256k1_musig_pubnonce_serialize", "secp256k1_musig_pubnonce_save", "secp256k1_musig_pubnonce_load", "secp256k1_eckey_pubkey_parse", "secp256k1_ge_set_xo_var"],
+      timeout=600, min_obl=300, unwind=68, replay=False, note="all 66-byte strings; accept set, infinity rejected, round trip"),
+    U("C12.aggnonce_parse", ["C12", "C07"], "harness/C12/codecs.c", "h_aggnonce_parse", replace=XQ, assumed=XQ,
+      functions=["secp256k1_musig_aggnonce_parse", "secp256k1_musig_aggnonce_serialize", "secp256k1_musig_aggnonce_save", "secp256k1_musig_aggnonce_load", "secp256k1_musig_ge_parse_ext",
+                 "secp256k1_musig_ge_serialize_ext", "secp256k1_ge_to_bytes_ext", "secp256k1_ge_from_bytes_ext"],
+      timeout=600, min_obl=300, unwind=68, replay=False, note="all 66-byte strings; infinity components accepted and round-tripped"),
+    U("C12.nonce_serialize", ["C12", "C07"], "harness/C12/codecs.c", "h_nonce_serialize", functions=["secp256k1_musig_pubnonce_serialize", "secp256k1_musig_aggnonce_serialize"],
+      timeout=600, min_obl=300, unwind=68, replay=False, note="arbitrary object bytes: wrong magic => illegal callback"),
+    U("C12.partial_sig_codec", ["C12", "C07"], "harness/C12/codecs.c", "h_partial_sig_codec",
+      functions=["secp256k1_musig_partial_sig_parse", "secp256k1_musig_partial_sig_serialize", "secp256k1_musig_partial_sig_save"],
+      timeout=600, min_obl=100, unwind=40, replay=False, note="all 32-byte strings / arbitrary object bytes"),
+    U("C12.cache_session_codec", ["C12"], "harness/C12/codecs.c", "h_cache_session_codec",
+      functions=["secp256k1_keyagg_cache_load", "secp256k1_keyagg_cache_save", "secp256k1_musig_session_load", "secp256k1_musig_session_save"],
+      timeout=600, min_obl=100, unwind=68, replay=False, note="static helpers: save(load(bytes)) == bytes on valid objects, magic gate"),
+    U("C12.nonce_function", ["C12", "C13"], "harness/C12/nonce_function.c", "h_nonce_function", replace=HASH,
+      functions=["secp256k1_nonce_function_musig", "secp256k1_nonce_function_musig_helper", "secp256k1_nonce_function_musig_sha256_tagged",
+                 "secp256k1_nonce_function_musig_sha256_tagged_aux", "secp256k1_scalar_set_b32"],
+      timeout=300, min_obl=20, unwind=34, replay=False,
+      note="hash stream contracts (proved in C05.sha256_write/finalize) replace the SHA calls; every optional input present/absent; midstates: C02.midstates"),
 ]
 for _n, _e, _t in (("C12.adapt_inverse_lemma_range", "h_inverse_lemma_range", "results < n"), ("C12.adapt_inverse_lemma_ea", "h_inverse_lemma_ea", "extract(adapt(s,t,par),s,par) == t"),
                    ("C12.adapt_inverse_lemma_ae", "h_inverse_lemma_ae", "adapt(s,extract(sig,s,par),par) == sig"),
